@@ -279,6 +279,11 @@ def gen(prop: str, rng: random.Random, tier: str) -> Dict[str, Any]:
     # members whose step counters advance at different rates (different learn_step: mixed populations, or learn_step among the mutable hyper-parameters)
     case["mixed_learn_step"] = rng.random() < 0.4
     case["hp_learn_step"] = rng.random() < 0.4
+    # early stopping: every loop returns once all members' mean fitness exceeds `target` and 100 step records exist (i.e. after generation 99)
+    if rng.random() < 0.03:
+        case["early_stop"] = rng.choice(["always_above", "always_above", "never_above"])
+        case.update({"gens": 102, "evo": False, "checkpoint": False, "pop": rng.choice([1, 2]), "mixed_learn_step": False, "num_envs": rng.choice([1, 2]),
+                     "learn_step": rng.choice([1, 2]), "max_len": rng.choice([2, 4])})
     if loop == "off_policy":
         case["algo"] = rng.choice(OFF_ALGOS)
         case["memory"] = rng.choice(["uniform", "uniform", "per", "n_step", "per_n_step"]) if case["algo"] == "Rainbow DQN" else "uniform"
@@ -424,6 +429,9 @@ def _run(ctx: kernel.Ctx, case: Dict[str, Any], loc: Dict[str, Any], tmp: str) -
     os.makedirs(os.path.dirname(ckpt_path), exist_ok=True)
     common = dict(INIT_HP=INIT_HP, MUT_P=None, max_steps=max_steps, evo_steps=evo_steps, eval_steps=3, eval_loop=1, tournament=tournament, mutation=mutation,
                   checkpoint=ckpt, checkpoint_path=ckpt_path, wb=False, verbose=False)
+    if case.get("early_stop"):
+        common["target"] = -1e9 if case["early_stop"] == "always_above" else 1e9
+        ctx.probe("early_stopping_configured")
     mods = []
     import importlib
 
@@ -504,7 +512,17 @@ def _run(ctx: kernel.Ctx, case: Dict[str, Any], loc: Dict[str, Any], tmp: str) -
         return (sum(vals) >= max_steps) if loop == "ma_on_policy" else any(v >= max_steps for v in vals)
 
     now = [a.steps[-1] for a in new_pop]
-    if not met(now):
+    if case.get("early_stop") == "always_above" and G < 99:
+        if not met(now):  # shorter than the early-stopping horizon: only the budget can have ended it
+            ctx.report("C20/stopped_before_budget", f"training returned after {G} generations with steps {now}, budget max_steps={max_steps} not met and fewer than 100 step records", **loc)
+    elif case.get("early_stop") == "always_above":
+        # the target is exceeded from the first evaluation on: the run ends with the generation that brings the 100th step record (generation 99), budget or not
+        if G != 99:
+            ctx.report("C20/early_stop", f"target exceeded by every member in every generation, budget {max_steps} ({gens} generations): training ran {G} generations, "
+                                         f"the early-stopping rule ends it after generation 99 (100 step records)", **loc)
+        else:
+            ctx.probe("stopped_early_at_generation_99")
+    elif not met(now):
         ctx.report("C20/stopped_before_budget", f"training returned with steps {now}, budget max_steps={max_steps} ({'summed' if loop == 'ma_on_policy' else 'per agent'}) not met", **loc)
     prev = [a.steps[-3] if len(a.steps) >= 3 else 0 for a in new_pop]
     if G >= 2 and met(prev):
